@@ -406,7 +406,7 @@ class Sym:
         if k == "Block":
             if n.get("expr") is not None and all(x.get("k") == "SLet" for x in n.get("stmts") or ()):
                 return s(n["expr"])
-            if n.get("expr") is not None and n.get("inlined_call"):
+            if n.get("expr") is not None:
                 # the body of an expanded helper in value position: its value is the tail (its statements are effects, which
                 # effect rules find by walking the tree, not through the value normal form)
                 return s(n["expr"])
